@@ -68,6 +68,8 @@ def show(t):
         return t[1]
     if k == 'unit':
         return '()'
+    if k == 'matches':
+        return '(%s ~ %s)' % (show(t[1]), t[2])
     return '<%s>' % (k,)
 
 
@@ -77,12 +79,12 @@ def subterms(t):
         return
     for x in t[1:]:
         if isinstance(x, tuple):
-            if x and isinstance(x[0], str) and x[0] in ('var', 'lit', 'path', 'field', 'struct', 'call', 'tup', 'bin', 'un', 'cast', 'try', 'macro', 'closure', 'index', 'ctl', 'unit'):
+            if x and isinstance(x[0], str) and x[0] in ('var', 'lit', 'path', 'field', 'struct', 'call', 'tup', 'bin', 'un', 'cast', 'try', 'macro', 'closure', 'index', 'ctl', 'unit', 'matches'):
                 yield from subterms(x)
             else:
                 for y in x:
                     if isinstance(y, tuple):
-                        if y and isinstance(y[0], str) and y[0] in ('var', 'lit', 'path', 'field', 'struct', 'call', 'tup', 'bin', 'un', 'cast', 'try', 'macro', 'closure', 'index', 'ctl', 'unit'):
+                        if y and isinstance(y[0], str) and y[0] in ('var', 'lit', 'path', 'field', 'struct', 'call', 'tup', 'bin', 'un', 'cast', 'try', 'macro', 'closure', 'index', 'ctl', 'unit', 'matches'):
                             yield from subterms(y)
                         else:
                             # (name, term) pairs of struct fields
@@ -866,7 +868,10 @@ class Evaluator(object):
                 self.emit('for', itt, node, guards, fn, chain, extra=H.pat_term(pat, True))
                 self.eval(body, benv, g, fn, chain)
                 return ('ctl', 'for _ in %s' % show(itt))
-            node = H.nest_result_match(node)
+            mt = self.matches_term(node, env, guards, fn, chain)
+            if mt is not None:
+                return mt
+            node = H.nest_tuple_match(H.nest_result_match(node))
             if node.get('tail_of') in getattr(self, 'tail_sps', ()):
                 self.tail_sps = set(self.tail_sps) | {node.get('sp')}
             sc = self.eval(node['scrut'], env, guards, fn, chain)
@@ -930,6 +935,48 @@ class Evaluator(object):
         if k == 'Repeat':
             return ('call', 'repeat', (self.eval(node['e'], env, guards, fn, chain),), ())
         return ('ctl', '<%s>' % k)
+
+    def matches_term(self, node, env, guards, fn, chain):
+        """`matches!(x, P)` (a match whose arms are the literals true / false, no guards, no bindings used): the pattern
+        test as a term, so that it reads like `if let P = x` wherever it stands (condition, arm guard, operand of && / ||)."""
+        import canon
+        arms = node.get('arms') or []
+        if node.get('src') != 'Normal' or len(arms) < 2:
+            return None
+        vals = []
+        for a in arms:
+            b = H.peel(a['body']) if isinstance(a.get('body'), dict) else {}
+            while b.get('k') == 'Block' and not b.get('stmts') and b.get('expr') is not None:
+                b = H.peel(b['expr'])
+            if a.get('guard') is not None or b.get('k') != 'Lit' or H.lit_str(b.get('v')) not in ('true', 'false'):
+                return None
+            vals.append(H.lit_str(b['v']) == 'true')
+        ty = node['scrut'].get('ty')
+        # true arms first, then everything else false (the shape matches! expands to) -- or its mirror image
+        if vals[:-1] == [True] * (len(arms) - 1) and vals[-1] is False and canon.whole(arms[-1]['pat'], ty) == 'ALL':
+            pol = True
+        elif vals[:-1] == [False] * (len(arms) - 1) and vals[-1] is True and canon.whole(arms[-1]['pat'], ty) == 'ALL':
+            pol = False
+        else:
+            return None
+        earlier = []
+        preds, names_all = [], set()
+        for a in arms[:-1]:
+            pr, nm = canon.pattern_pred(a['pat'], ty, earlier)
+            if pr == '_' or pr.startswith('not ') or canon.nested(a['pat']) is not None and nm is None and len(arms) > 2:
+                return None
+            preds.append(pr)
+            if nm is None:
+                names_all = None
+            elif names_all is not None:
+                names_all |= set(nm)
+        sc = self.eval(node['scrut'], env, guards, fn, chain)
+        if names_all and canon.variants_of(ty) is not None:
+            pred = canon.render(ty, names_all)
+        else:
+            pred = ' | '.join(preds)
+        t = ('matches', sc, pred, ty)
+        return t if pol else ('un', '!', t)
 
     def reduce_option_match(self, node, sc, arm_info, guards, fn, chain):
         """`match opt { Some(v) => Ok(v), None => Err(e) }` is `opt.ok_or(e)`; with `Some(v) => v, None => return Err(e)` it is
